@@ -12,6 +12,7 @@ come from `Gen/*.lean`, regenerated from the Rust source on every run.
 -/
 import HvPart.Model.Basic
 import HvPart.Model.TopoSort
+import HvPart.Model.TopoC17
 import HvPart.Model.Merge
 import HvPart.Gen.Color
 import HvPart.Gen.Catalogue
@@ -156,13 +157,39 @@ def refPairs (g : Flat) : List (Nat × Nat) :=
 
 def accessDepPairs (g : Flat) : List (Nat × Nat) := (g.accessPairs).map (fun p => (p.2, p.1))
 
+/-- the dependencies collected before the loop-ingress pass: pipes, references (+ borrower before
+    consumer), access order -/
+def baseDepPairs (g : Flat) : List (Nat × Nat) :=
+  g.pipePairs ++ g.refPairs ++ g.accessDepPairs
+
+/-- the `loop_contains` closure: walking up from loop `cur`, do we meet `l`? -/
+def loopContainsAux (g : Flat) (l : Nat) : Nat → Option Nat → Bool
+  | 0, _ => false
+  | _, none => false
+  | fuel + 1, some a => if a == l then true else loopContainsAux g l fuel (g.loopParent a)
+
+/-- is node `n` inside loop `l` (directly or nested)? -/
+def loopContains (g : Flat) (l n : Nat) : Bool :=
+  loopContainsAux g l (g.loops.length + 1) (g.nodeLoop n)
+
+/-- the `while let Some(loop_id) = current` walk: the outermost loop met before one that contains `src` -/
+def ingressLoopAux (g : Flat) (src : Nat) : Nat → Option Nat → Option Nat → Option Nat
+  | 0, _, acc => acc
+  | _, none, acc => acc
+  | fuel + 1, some l, acc =>
+    if g.loopContains l src then acc else ingressLoopAux g src fuel (g.loopParent l) (some l)
+
+/-- the outermost loop which contains `dst` but not `src`, if any -/
+def ingressLoop (g : Flat) (src dst : Nat) : Option Nat :=
+  ingressLoopAux g src (g.loops.length + 1) (g.nodeLoop dst) none
+
+/-- loop-ingress ordering: for every dependency `src → dst` collected so far whose `dst` lies in a loop
+    not containing `src`, `src` precedes every node directly inside the outermost such loop -/
 def ingressPairs (g : Flat) : List (Nat × Nat) :=
-  g.edges.flatMap fun e =>
-    if g.isTick e then []
-    else match g.nodeLoop e.dst with
-      | some dl =>
-        if g.nodeLoop e.src == g.loopParent dl then (g.loopNodes dl).map (fun i => (i, e.src)) else []
-      | none => []
+  g.baseDepPairs.flatMap fun p =>
+    match g.ingressLoop p.2 p.1 with
+    | some l => (g.loopNodes l).map (fun i => (i, p.2))
+    | none => []
 
 /-- all `(dst, src)` dependency pairs: `src` must run before `dst` -/
 def depPairs (g : Flat) : List (Nat × Nat) :=
@@ -171,9 +198,10 @@ def depPairs (g : Flat) : List (Nat × Nat) :=
 def predsOf (pairs : List (Nat × Nat)) (n : Nat) : List Nat :=
   (pairs.filter (fun p => p.1 == n)).map (·.2)
 
-/-- enemy pairs handed to `SubgraphMerge::new` -/
+/-- enemy pairs handed to `SubgraphMerge::new` (self-pairs — a delayed self-edge — are skipped) -/
 def enemyPairs (g : Flat) : List (Nat × Nat) :=
-  g.barrierPairs ++ g.accessPairs ++ g.refs.filterMap (fun r => r.target.map (fun s => (s, r.node)))
+  (g.barrierPairs ++ g.accessPairs ++ g.refs.filterMap (fun r => r.target.map (fun s => (s, r.node)))).filter
+    (fun p => p.1 != p.2)
 
 end Flat
 
@@ -291,12 +319,16 @@ def effectiveDelay (g : Flat) (consumer : Nat) (d : Delay) : Delay :=
   | some l => if (g.loopParent l).isSome then Gen.delayRemapNested d else d
   | none => d
 
+/-- the predecessor `validate_topo_sort` looks at for edge `e`: its source, or — jumping over a pre-existing
+    handoff node — that handoff's first producer -/
+def orderPred (g : Flat) (e : FEdge) : Option Nat :=
+  if g.isHoff e.src then (match g.producers e.src with | p :: _ => some p | [] => none) else some e.src
+
 /-- `validate_topo_sort` as called at the end of `make_subgraphs` -/
 def validateOrder (g : Flat) (order : List Nat) : Bool :=
   order.all fun succ =>
     (g.edges.filter (fun e => e.dst == succ && !g.isTick e)).all fun e =>
-      let pred := if g.isHoff e.src then (match g.producers e.src with | p :: _ => some p | [] => none) else some e.src
-      match pred with
+      match orderPred g e with
       | none => false
       | some p =>
         match order.idxOf? p, order.idxOf? succ with
@@ -359,7 +391,9 @@ def partitionWith (ts : TopoSortFn) (g : Flat) : Outcome :=
   | .panic msg => .panic msg
   | .ok sm => finishPartition g (mergeLoop g (g.nodes.length + 2) (mergeInit g sm))
 
-/-- the partitioner with the re-transcribed `topo_sort` -/
-def partition (g : Flat) : Outcome := partitionWith topoSort g
+/-- the partitioner as the driver runs it: `SubgraphMerge::new` sorts with the C17 transcription of
+    `topo_sort` (`tsC17`, which meets `TopoSpec` — `Props/C19.lean`); the window re-sort inside `try_merge`
+    uses this project's own transcription `topoSort` -/
+def partition (g : Flat) : Outcome := partitionWith tsC17 g
 
 end HvPart
